@@ -81,6 +81,7 @@ type plan struct {
 	fireStep int
 	policy   int
 	ticks    int // small clock advances before the event
+	maxSteps int // step cap: generous for terminating programs (alternate policy: one step per instruction)
 }
 
 var ctxNames = []string{"WithCancel", "parent-cancel", "deadline", "already-cancelled", "background", "deadline-not-reached"}
@@ -111,7 +112,7 @@ func simulate(r *harness.Run, prog runner, pl plan, logIt bool) result {
 	sched.Bubble(theT, func() {
 		s := sched.New(r.S)
 		s.Policy = pl.policy
-		s.MaxSteps = 4000
+		s.MaxSteps = pl.maxSteps
 		s.MaxQuantum = 150
 		if logIt {
 			s.Log = r.Logf
@@ -300,7 +301,7 @@ func exec(r *harness.Run) *harness.Violation {
 		// Reference outcome: the same program without any context, run to
 		// block (output is schedule-independent by construction; C14 checks
 		// that against gc).
-		rr := simulate(r, prog, plan{ctxKind: 4, policy: 1}, false)
+		rr := simulate(r, prog, plan{ctxKind: 4, policy: 1, maxSteps: 200000}, false)
 		r.Evals(1)
 		if rr.oc.Kind != "done" && rr.oc.Kind != "until" || rr.err != nil || rr.panicked {
 			r.Count("skipped.reference_failed", 1)
@@ -331,6 +332,10 @@ func exec(r *harness.Run) *harness.Violation {
 		}
 		pl.policy = s.Pick(4, 2, 1, 2)
 		pl.ticks = s.N(3)
+		pl.maxSteps = 4000
+		if !nonTerm {
+			pl.maxSteps = 200000
+		}
 		res := simulate(r, prog, pl, j < 2)
 		r.Evals(1)
 		r.Count("sched_steps", res.steps)
